@@ -170,6 +170,7 @@ def check(run, repo, world):
                if kind == "GearShort" else None)
     _partition(run, repo, world, rx, folder, mod)
     _equality(run, repo, world, rx, folder, mod, kinds)
+    _frame_api(run, repo, world, mod)
 
 
 def _raised_class(world, modname, r):
@@ -460,3 +461,68 @@ def _equality(run, repo, world, rx, folder, mod, kinds):
         run.ob("R-ADDR-EQ", ADDR + kind + "#other-kinds", not others,
                "%s compares equal (or fails) against other kinds: %s" % (
                    kind, others[:4]), where(mod, c.node), trivial=True)
+
+
+def _frame_api(run, repo, world, mod):
+    """R-FRAME-API: the address codec is handed frames of any class (a plain
+    Frame from a concatenation, a BackwardFrame, a ForwardFrame): whatever it
+    reads off its frame parameter must be defined by Frame itself, or the
+    read raises AttributeError instead of giving the address / None."""
+    run.rule("R-FRAME-API", "the address codec uses only what dali.frame."
+             "Frame defines on its frame parameter (any frame object can be "
+             "read)")
+    fr = world.cls("dali.frame.Frame")
+    if fr is None:
+        raise AnalysisError("dali.frame.Frame vanished")
+    have = set(fr.methods) | set(fr.attrs)
+    for (kind, f) in fr.methods.values():
+        for n in ast.walk(f):
+            if isinstance(n, ast.Attribute) and isinstance(
+                    n.ctx, ast.Store) and isinstance(
+                        n.value, ast.Name) and n.value.id == "self":
+                have.add(n.attr)
+    have |= {"__class__", "__len__", "__getitem__", "__setitem__"}
+    def reads(f):
+        ps = [a.arg for a in f.args.args]
+        fp = ps[1] if len(ps) > 1 else None
+        return fp, [n for n in ast.walk(f) if isinstance(
+            n, ast.Attribute) and isinstance(n.value, ast.Name) and
+            n.value.id == fp]
+    # the expected count on this tree is zero: a built-in example keeps the
+    # matcher honest on every run
+    ex = ast.parse("def from_frame(cls, f):\n    if f.is_proprietary:\n"
+                   "        return\n    return f[7:0]\n").body[0]
+    exr = reads(ex)[1]
+    if [n.attr for n in exr] != ["is_proprietary"] or \
+            "is_proprietary" in have:
+        raise AnalysisError("R-FRAME-API: the built-in example is no longer "
+                            "matched")
+    n_sites = 0
+    n_fns = 0
+    for c in world.classes_in("dali.address"):
+        for name, (kind, f) in sorted(c.methods.items()):
+            if name not in ("from_frame", "add_to_frame"):
+                continue
+            n_fns += 1
+            fp, rs = reads(f)
+            run.ob("R-FRAME-API", "%s.%s#frame-api" % (c.qname, name),
+                   all(n.attr in have for n in rs),
+                   "%s.%s reads %s off its frame parameter, which "
+                   "dali.frame.Frame does not define" % (
+                       c.qname, name, sorted({n.attr for n in rs
+                                              if n.attr not in have})),
+                   where(mod, f))
+            for n in rs:
+                if n.attr not in have:
+                    n_sites += 1
+                    run.ob("R-FRAME-API", "%s.%s#%s.%s" % (
+                        c.qname, name, fp, n.attr), False,
+                        "%s.%s reads `%s.%s`, which dali.frame.Frame does "
+                        "not define: for a frame that is not of the subclass "
+                        "that has it (a plain Frame, a BackwardFrame) the "
+                        "read raises AttributeError instead of yielding the "
+                        "address or None" % (c.qname, name, fp, n.attr),
+                        where(mod, n))
+    run.floor("address codec methods examined for their frame reads", n_fns,
+              12)
+    run.analysed["reads outside Frame's interface"] = n_sites
